@@ -951,8 +951,10 @@ fn corpus() -> Vec<(Pat, Vec<u8>, Option<usize>)> {
         // known finding: for a greedy regexp the LONGEST end of a chain piece is kept: /aba?a.*abX/s misses abaabX
         (Pat::Regexp(Re::Cat(vec![lit(b"ab"), Re::Rep(Box::new(lit(b"a")), 0, Some(1), true), lit(b"a"), Re::Rep(Box::new(any()), 0, None, true), lit(b"abX")]),
                      rm(&|m| { m.dotall = true; })), b"abaabX".to_vec(), None),
-        // known finding: base64wide drops a '=' at an even offset anywhere in the window, not only trailing padding
+        // regression (repaired by b2a39c9f): base64wide dropped a '=' at an even offset anywhere in the window, not only
+        // trailing padding; and the legitimate trailing padding next to it
         (Pat::Text(b"foob".to_vec(), tm(&|m| { m.b64wide = Some(None); })), widen(b"..Zm9v=YgA.."), None),
+        (Pat::Text(b"foob".to_vec(), tm(&|m| { m.b64wide = Some(None); })), widen(b"..Zm9=vYgA..Zm9vYg=="), None),
         // xor + fullword (differences.md)
         (Pat::Text(b"mississippi".to_vec(), tm(&|m| { m.xor = Some((1, 1)); m.xor_explicit = true; m.fullword = true; })), b"{lhrrhrrhqqh} !lhrrhrrhqqh!".to_vec(), None),
     ]
@@ -1316,7 +1318,7 @@ fn coq_trace(out: &ScanOut, n_sub_patterns: usize) -> Option<(String, String, St
     Some((coq_nat(kernel), format!("[{}]", hits.join("; ")), format!("[{}]", evs.join("; ")), hits.len(), evs.len()))
 }
 
-fn coq_chain_dump(dump: &Dump) -> Option<(String, String, usize, usize, usize)> {
+fn coq_chain_dump(dump: &Dump) -> Option<(String, String, usize, usize, usize, String)> {
     let (sps, atoms, _) = dump;
     let bits: std::collections::HashMap<&str, u16> = yara_x::verif_c01dump::verif_c01_flag_bits().into_iter().collect();
     let mine: Vec<(usize, &yara_x::verif_c01dump::SubPatternDump)> = sps.iter().enumerate().filter(|(_, sp)| sp.pattern_id == 0).collect();
@@ -1343,7 +1345,12 @@ fn coq_chain_dump(dump: &Dump) -> Option<(String, String, usize, usize, usize)> 
     let my_atoms: Vec<String> = atoms.iter().filter(|a| a.sub_pattern_id < mine.len())
         .map(|a| format!("mkAtom {} {} {} {}", coq_nat(a.sub_pattern_id), coq_list(&a.bytes, |b| b.to_string()), coq_nat(a.backtrack), coq_bool(a.exact))).collect();
     let n_atoms = my_atoms.len();
-    Some((format!("[{}]", out.join("; ")), format!("[{}]", my_atoms.join("; ")), mine.len(), n_atoms, n_regexp))
+    // regexp pieces run by the FastVM (every match length is enumerated: the first is kept for a lazy
+    // pattern, the last for a greedy one) all of whose atoms have no backward code: the atom is where
+    // the piece starts
+    let fwd_only: Vec<String> = mine.iter().filter(|(i, sp)| sp.kind.starts_with("Regexp") && sp.flags & bits["FastRegexp"] != 0
+        && atoms.iter().filter(|a| a.sub_pattern_id == *i).all(|a| !a.has_bck_code && a.backtrack == 0)).map(|(i, _)| coq_nat(*i)).collect();
+    Some((format!("[{}]", out.join("; ")), format!("[{}]", my_atoms.join("; ")), mine.len(), n_atoms, n_regexp, format!("[{}]", fwd_only.join("; "))))
 }
 
 fn chain_case(p: &Pat, data: &[u8], noise: usize, idx: usize, stats: &mut Stats) -> Option<(String, String, String)> {
@@ -1358,10 +1365,11 @@ fn chain_case(p: &Pat, data: &[u8], noise: usize, idx: usize, stats: &mut Stats)
         let (case, replay, _) = scan_case(p, data, idx % CONDS.len(), noise, None, idx).ok()?;
         return Some((case, replay, String::new()));
     }
-    let (pieces, atoms, np, natoms, nre) = dumped?;
+    let (pieces, atoms, np, natoms, nre, fwd_only) = dumped?;
     let (kernel, hits, evs, nhits, nevs) = traced?;
     stats.inc("chain_cases"); stats.inc(&format!("chain_pieces_{}", np)); stats.add("chain_atoms", natoms as u64);
     stats.add("chain_hits", nhits as u64); stats.add("chain_piece_matches", nevs as u64);
+    if fwd_only != "[]" { stats.inc("chain_with_fast_forward_only_regexp_piece"); }
     stats.inc(match nre { 0 => "chain_all_literal_pieces", n if n == np => "chain_all_regexp_pieces", _ => "chain_mixed_pieces" });
     stats.inc(&format!("chain_kernel_{}", out.trace.as_ref().map_or("none", |t| t.kernel)));
     match p {
@@ -1373,7 +1381,7 @@ fn chain_case(p: &Pat, data: &[u8], noise: usize, idx: usize, stats: &mut Stats)
     }
     stats.inc(match out.matches.len() { 0 => "chain_matches_0", 1 => "chain_matches_1", _ => "chain_matches_2+" });
     if data.len() > 200 { stats.inc("chain_data_over_200"); }
-    let case = format!("ChainCase {} {} {} {} {} {} {} {}", coq_pat(p), pieces, atoms, kernel, hits, evs, coq_list(data, |b| b.to_string()),
+    let case = format!("ChainCase {} {} {} {} {} {} {} {} {}", coq_pat(p), pieces, atoms, kernel, hits, evs, fwd_only, coq_list(data, |b| b.to_string()),
         coq_list(&out.matches, |(s, l, k)| format!("({},{},{})", s, l, coq_key(k))));
     let replay = format!("{{\"stream\":\"scan\",\"sub_stream\":\"chain\",\"index\":{},\"shape\":{},\"tags\":{},\"data_len\":{},\"source\":{},\"data_hex\":\"{}\",\"max_matches_per_pattern\":null,\"reported\":{},\"panic\":null,\"pieces\":{},\"atoms\":{},\"kernel\":{},\"hits\":{},\"piece_matches\":{}}}",
         idx, json_str(&shape(p)), serde_json::to_string(&tags(p)).unwrap(), data.len(), json_str(&src), hex(data),
